@@ -80,7 +80,7 @@ CLAIMED["C04"] = dict(
          "Search.tla now models inferral strategies (rotation / skip), symmetry expansion, strategy factories with foreign parents, several expansion sets, iterative packs and the forest database with or without reverse keys: the loops of about 300 recorded searches over 29 packs are validated step by step (Trace_SearchLoop) and every time-slicing of a sample of their universes is model-checked (MC_Search). "
          "Universe G: seeded generated rule tables (any hypergraph of rules over 3-7 opaque classes, empty / verified classes anywhere, repeated children, "
          "shifts of both signs, all flag combinations) are realised as real classes / strategies / packs, searched by the real searcher, and each "
-         "recorded loop is validated against Search.tla instantiated with the generated table itself (60 universes; 8 of them model-checked for all slicings in the quick tier, 20 in the thorough tier).",
+         "recorded loop is validated against Search.tla instantiated with the generated table itself (60 universes quick / 120 thorough; 8 / 20 of them model-checked for all slicings).",
     design_ref="DESIGN.md 3/C04",
     note="Trusted: TLC; the session recorder (wraps ruledb.add, _rules_from_strategy, ClassDB methods). The ClassDB model it rests "
          "on is model-checked under C15. Re-application of the strategy is executed by the harness and compared by TLC.",
